@@ -29,7 +29,8 @@ CHECKS = {
    text="Every array of the bounded universe (abelian and fermionic, n<=4, every sparsity pattern on the small tiers) is fused by the real code for every sequence of "
         "disjoint ordered axis groups (single-axis, non-adjacent, permuted, nested on an already fused axis), with strategies insert and concat and the fuse cache on and off. "
         "The fused index's own table is audited (signed combination, extent sizes, direction of the first axis, sub-indices) and the fused blocks must equal, element for "
-        "element, the layout that table prescribes; both strategies / cache settings must agree exactly; unfusing must restore every block bit for bit (fermionic: the R-graded transpose).",
+        "element, the layout that table prescribes; both strategies / cache settings must agree exactly; unfusing must restore every block bit for bit (fermionic: the R-graded transpose). "
+        "Also: the conjugate taken after the fuse fused with the same groups (audited against its own tables), fuse -> conj -> unfuse, and empty groups (ignored / expanded to a singlet axis).",
    note="Trusted: numpy transpose/reshape on tagged blocks; the R-graded transpose for the fermionic round trip. Fermionic concat strategy is not reachable through the public fuse and is not covered."),
  "C07": dict(engine="E-enum", design_ref="DESIGN.md 5 C07",
    technique="exhaustive enumeration of shapes x merge/drop targets for the axis-matching routine against a plan interpreter, and of real arrays x targets x the trip back with exact integer tags",
@@ -67,7 +68,7 @@ CHECKS = {
    text="Every catalogue operation is applied to every root (abelian, fermionic with pending signs and labels, block vectors; n<=3) whose blocks are marked read-only and whose complete observable "
         "state (block bytes and order, index tables incl. sub-index info, charge, sign table in order, labels) was snapshotted by the harness; then every operation - out-of-place and in-place - is applied "
         "to every array result of every first operation (these share memory with the root): root and intermediate must stay bit-identical, any write through a view raises at the faulty line. "
-        "For each operation with an in-place flag, op(copy, inplace=True) must return the copy itself and equal op(x) exactly.",
+        "For each operation with an in-place form (the inplace flag, and the augmented assignments += -= *= /=), the in-place call on a copy must return the copy itself and equal the out-of-place result exactly.",
    note="Trusted: numpy's writeable flag and shares_memory; harness snapshot. Documented mutators are exercised on a library copy."),
  "C09": dict(engine="E-bfs", design_ref="DESIGN.md 5 C09",
    technique="explicit-state breadth-first search over the product of a lazy run and its synchronised twin on the real objects; invariant = equal observations in every product state",
@@ -100,7 +101,7 @@ CHECKS = {
    note="Trusted: numpy.linalg on the dense embedding, tolerance 1e-8; singular values below 1e-8*s_max count as zero on both sides."),
  "C13": dict(engine="E-enum", design_ref="DESIGN.md 5 C13, 4.5",
    technique="exhaustive enumeration of cutoff mode x decision interval x bond limit x absorb option over matrices with designed spectra on the real svd_truncated; reference = the truncation rule R-trunc",
-   text="Matrices are assembled blockwise from known singular values spread over 1-3 charges (several menus, plus ties), for all direction patterns, even / odd charge, abelian / fermionic with pending signs, "
+   text="Matrices are assembled blockwise from known singular values spread over 1-3 charges (several menus incl. exactly zero blocks and a rank-deficient block, plus ties), for all direction patterns, even / odd charge, abelian / fermionic with pending signs, "
         "real / complex. For each, all six cutoff modes x a cutoff inside every decision interval (and two beyond the total weight) x every bond limit from 1 to rank+1 and none x every absorb "
         "option are run: kept values must be exactly the largest ones the rule permits, every kept >= every discarded, the kept count must not grow with the cutoff, with no cutoff the bond equals the limit "
         "split over charges keeping each charge's largest, |x - U s V|^2 must equal the discarded weight, the absorb variants must give the same product, and the truncated factors must be valid "
@@ -136,7 +137,7 @@ CHECKS = {
         "modes on three sites, given as FermionicOperators and as (label, symbol) pairs: the computed elements must equal the Jordan-Wigner vacuum expectation values. (B) For Z2, U1 (spinless and "
         "spinful maps), Z2Z2 and U1U1, complete and incomplete bases, 1-2 sites: the matrix of psi -> tensordot(G, psi) measured on the unit state tensor of every basis state (every total charge, odd ones "
         "with a label) must equal S.H.S for one diagonal sign matrix S solved from a generic connected reference operator - for every charge-conserving normal-ordered string of length 2 and 4, its "
-        "Hermitian completion (Hermitian matrix, exact spectrum), products of operator arrays versus the array of the product operator, and the five model builders with several parameter sets.",
+        "Hermitian completion (Hermitian matrix, exact spectrum), products of operator arrays versus the array of the product operator, constant terms (energy shifts), coefficient types (complex amplitudes in Hermitian term sets, python / numpy integers and float32 in front of fractions), and the five model builders with several parameter sets.",
    note="Trusted: Jordan-Wigner matrices as the meaning of second quantisation; tolerance 1e-9..1e-12. Only charge-conserving operators can be represented and are exercised."),
  "C19": dict(engine="E-enum", design_ref="DESIGN.md 5 C19",
    technique="exhaustive enumeration of labelled simple graphs x edge-listing / labelling / coefficient-form variants on the real Hamiltonian builders; reference = the lattice Hamiltonian as Jordan-Wigner matrices on all lattice modes",
@@ -149,7 +150,7 @@ CHECKS = {
  "C15": dict(engine="E-hist + E-sched", design_ref="DESIGN.md 5 C15",
    technique="explicit-state search over call histories of the process-wide caches (deduplicated by recorded cache contents) against cold cache-less reference results; exhaustive check of the default-mode context manager; stateless preemption-bounded exploration of real thread interleavings under a sys.settrace baton scheduler",
    text="(a) On a family of arrays that differ from a base array in exactly one attribute (one direction via conj of the same index object, one block size, one charge label, one missing sector, block order, "
-        "total charge, symmetry object, sub-index structure with equal table, dtype) every history of up to 2 events over the full alphabet (88 events) and up to 3 over a core alphabet is executed from a cold state "
+        "total charge, symmetry object, sub-index structure with equal table, a twice-fused leg differing only in its innermost legs, the mere name of a charge over the box [-2,2], dtype) every history of up to 2 events over the full alphabet (~140 events) and up to 3 over a core alphabet is executed from a cold state "
         "under fuse-cache sizes 0, 1, 2, 8192 x sector limits 1, 512 (and through the environment variable in a fresh interpreter); the last result must equal that event's result in a cold, cache-less state. System "
         "state = ordered fuse-cache keys, argument sets seen by every lru_cache (recorded by wrapping), hash-memo flags of the shared index objects, default mode. (b) default_tensordot_mode: every initial mode x "
         "nesting <=2 x body outcome restores the mode and propagates the exception. (c) Ten two-thread scenarios on shared operands (same cache key cold, mutually evicting keys with maxsize 1, two different arrays with equal directions and groups, fused contractions, "
